@@ -116,6 +116,9 @@ class Exchange:
             # Trade Cancel (matrices, section E): the last trade is taken back.  Only while another trade stands: the order stays
             # partially filled; which status word follows the bust of the ONLY trade is not among the report kinds the property lists
             a += ["bust"]
+        if self.status == "4" and self.pending is None and self.fills and not self.requests:
+            # matrix D: an execution of a cancelled order is busted afterwards (the order stays cancelled, its CumQty goes down)
+            a += ["bust:after-cancel"]
         if self.status == "9" and self.pending is None:
             a += ["resume", "cancel:unsolicited"]
         return a
@@ -192,6 +195,14 @@ class Exchange:
             if r is not None:
                 out.append(self._rej(r, code))
             return out
+        if action == "bust:after-cancel":
+            ref, q = self.fills.pop()
+            self.cum = max(0.0, self.cum - q)
+            if self.cum <= 1e-9:
+                self.cum = 0.0
+            r = self._er("H", "4")
+            r[19] = ref
+            return [r]
         if action == "bust":
             ref, q = self.fills.pop()
             self.cum = max(0.0, self.cum - q)
